@@ -15,7 +15,7 @@
   `current_is_repaired` is the obligation that fails on a tree without the repairs.
   The `asIs_*` theorems are kernel-checked witnesses of what the unrepaired code does.
 -/
-import Mhd.Proofs.TmoClock
+import Mhd.Proofs.TmoPend
 import Mhd.Proofs.TmoConv
 
 namespace Mhd.C10
@@ -279,6 +279,61 @@ theorem hint_none_only_when_idle (cfg : Cfg) (hc : cfg.dtmo ≤ tmoMax) (ops : L
 theorem hint_zero_when_pending (v : Variant) (d : Daemon) (hp : pending d = true) : hint v d = some 0 :=
   hint_pending v d hp
 
+/-! ### "zero whenever work is already pending": the flag is an accumulation over the round -/
+
+/-- the tree under test only ever RAISES `data_already_pending` at the end of `call_handlers`
+    (probed on the real code on every run: two connections, the older one left with unprocessed upload
+    data, the younger one idle, select loop) -/
+theorem current_accumulates_pending : Variant.current.pendAccum = true := rfl
+
+/-- The end of `call_handlers`: the flag is raised for a connection in a PROCESS wait state, an already
+    raised flag stays, no connection record is touched. -/
+theorem pending_flag_only_raised (d : Daemon) (i : Id) :
+    (notePending Variant.current d i).c = d.c ∧
+    (procWait (d.c i) = true → (notePending Variant.current d i).dataPending = true) ∧
+    (d.dataPending = true → (notePending Variant.current d i).dataPending = true) :=
+  notePending_spec current_accumulates_pending d i
+
+/-- **The sleep hint is zero whenever a connection handled in the round has work pending** — the real
+    accumulation, connection by connection in traversal order: for the select loop (with `pos->prev`
+    saved, F10 repaired), any state, any list of connections in any order, any set of readable sockets:
+    after the traversal, if some traversed connection is in a PROCESS wait state (here: upload data the
+    handler has left in the read buffer) then `MHD_get_timeout64` returns 0 — also when connections with
+    nothing pending are handled after it. -/
+theorem select_traversal_pending_hint_zero (hsp : Variant.current.savePrev = true) (rs l : List Id) (d : Daemon)
+    (hnd : l.Nodup) (i : Id) (hi : i ∈ l)
+    (hp : procWait ((travSel Variant.current rs l d).1.c i) = true) :
+    hint Variant.current (travSel Variant.current rs l d).1 = some 0 := by
+  have h := (travSel_pending current_accumulates_pending hsp rs l d hnd).2 i hi hp
+  exact hint_pending _ _ (by simp [pending, h])
+
+/-- A flag that is already up survives the traversal. -/
+theorem select_traversal_keeps_pending (hsp : Variant.current.savePrev = true) (rs l : List Id) (d : Daemon)
+    (hnd : l.Nodup) (h : d.dataPending = true) : (travSel Variant.current rs l d).1.dataPending = true :=
+  (travSel_pending current_accumulates_pending hsp rs l d hnd).1 h
+
+/-- two connections, the older one (0) gets four upload bytes and a handler that takes one per call -/
+def pendHistory : List Op := [.arrive 0, .arrive 1, .round, .slow 0, .sendn 0 4, .round]
+
+/-- the tree with `call_handlers` ASSIGNING the flag for every connection (seeded change C10_4) -/
+def assignsPending : Variant := ⟨true, true, true, true, true, true, false⟩
+
+/-- With the assignment, the idle connection 1 — handled after connection 0 — writes the flag back:
+    three upload bytes wait in the read buffer of connection 0, no socket event will come, and the hint
+    is the time to the next deadline. -/
+theorem assigned_flag_is_cleared_by_idle_connection :
+    let d := run assignsPending (Daemon.init ⟨false, 10000, true⟩) pendHistory
+    (d.c 0).buf = 3 ∧ procWait (d.c 0) = true ∧ d.dataPending = false ∧ hint assignsPending d = some 10000 := by
+  decide
+
+/-- … whereas the accumulating form gives 0, in the select and in the epoll loop, for three rounds. -/
+theorem accumulated_flag_gives_zero :
+    let v : Variant := ⟨true, true, true, true, true, true, true⟩
+    (∀ e, hint v (run v (Daemon.init ⟨e, 10000, true⟩) pendHistory) = some 0) ∧
+    (∀ e, hint v (run v (Daemon.init ⟨e, 10000, true⟩) (pendHistory ++ [.round, .round])) = some 0) ∧
+    (∀ e, hint v (run v (Daemon.init ⟨e, 10000, true⟩) (pendHistory ++ [.round, .round, .round])) = some 10000) := by
+  decide
+
 /-! ### what the event loops and the legacy API make of the hint (every `uint64_t` value, every cap) -/
 
 /-- No wrapper or loop-internal conversion of a hint `u` yields a wait longer than `u`, and none yields
@@ -378,7 +433,7 @@ theorem asIs_F11_epoll_expired_not_closed :
 
 /-- … whereas the repaired insertion keeps the list sorted, gives the hint 6000 and closes A in that round. -/
 theorem repaired_F11 :
-    let v : Variant := ⟨true, true, true, true, false, true⟩
+    let v : Variant := ⟨true, true, true, true, false, true, true⟩
     let d := run v (Daemon.init (cfgT10 true)) f11History
     d.normal = [1, 0] ∧ hint v d = some 6000 ∧
     (round v (run v d [.round, .tick 6500])).2 = [Event.tmoClose 0 false] := by
@@ -413,7 +468,7 @@ def f11eHistory : List Op :=
   [.arrive 0, .arrive 1, .round, .tick 1000, .send 0, .round, .tickback 300, .send 1, .round, .tick 1000]
 
 /-- the tree with every earlier repair but head insertion of freshly stamped connections -/
-def preF11e : Variant := ⟨true, true, true, true, true, false⟩
+def preF11e : Variant := ⟨true, true, true, true, true, false, true⟩
 
 /-- F11e: after a small backward jump the freshly stamped connection 1 is put in front of connection 0
     whose stamp is younger: the list is not sorted, and the hint (9300 ms) exceeds the time left to
@@ -434,7 +489,7 @@ theorem asIs_F11e_epoll_expired_not_closed :
 /-- … whereas the sorted insertion keeps the order, gives the hint 9000 and closes connection 1 in that
     round. -/
 theorem repaired_F11e :
-    let v : Variant := ⟨true, true, true, true, true, true⟩
+    let v : Variant := ⟨true, true, true, true, true, true, true⟩
     let d := run v (Daemon.init (cfgT10 true)) f11eHistory
     d.normal = [0, 1] ∧ hint v d = some 9000 ∧
     (round v (run v d [.tick 9001])).2 = [Event.tmoClose 1 true] := by
@@ -445,7 +500,7 @@ theorem repaired_F11e :
     whose idle time on the clock is 0 — the hypothesis `back ≤ jumpBackLimit` of
     `round_closes_only_expired` cannot be dropped. -/
 theorem largeDisplacement_closes_idle :
-    let v : Variant := ⟨true, true, true, true, true, true⟩
+    let v : Variant := ⟨true, true, true, true, true, true, true⟩
     let d := run v (Daemon.init (cfgT10 false)) [.arrive 0, .round, .tickback 3000, .tickback 3000]
     d.back = 6000 ∧ d.now - (d.c 0).la = 0 ∧ (round v d).2 = [Event.tmoClose 0 false] := by
   decide
